@@ -207,11 +207,16 @@ func (ch c03) framing(c *core.Ctx, env *hs.Env, rng *core.Rng, idx int) {
 	progs := map[string]*hs.Prog{}
 	stream := pg.Startup([][2]string{{"user", "framing"}})
 	n := 3 + rng.Intn(10)
-	cutShort := false
+	cutShort, huge := false, false
 	shape := ""
 	for i := 0; i < n; i++ {
 		var m []byte
-		switch k := rng.Intn(13); k {
+		switch k := rng.Intn(14); k {
+		case 13: // a declared length of 2 GiB or more (top bit of the length word set): everything the client
+			// still sends belongs to that message - last message of the stream, the probe behind it included
+			m = pg.RawLen(core.Pick(rng, []byte("QPBDESd~")), core.Pick(rng, []uint32{0x80000000, 0x80000008, 0x80001000, 0xc0000000, 0xfffffff0, 0xffffffff}), append(pg.Sync(), pg.Query("smuggled inside a declared length of 2 GiB or more")...))
+			shape += "G"
+			n, huge = i+1, true
 		case 12: // a failing extended message, then - while the server skips until Sync - an oversized message whose body is made of well-formed messages
 			m = core.Pick(rng, [][]byte{pg.Execute("nosuch", 7), pg.Describe('P', "nosuch"), pg.Bind("p", "nosuch", nil, nil, nil)})
 			inner := append(pg.Sync(), pg.Query("smuggled inside an oversized message")...)
@@ -341,6 +346,13 @@ func (ch c03) framing(c *core.Ctx, env *hs.Env, rng *core.Rng, idx int) {
 	}
 	if cutShort {
 		c.Count("short_bodies_framed", 1)
+	}
+	if huge {
+		c.Count("declared_lengths_of_2GiB_or_more", 1)
+		if next != n-1 {
+			c.Violate("framing", "a message was not consumed in exactly its declared length: bytes inside a declared length of 2 GiB or more were taken for messages", fmt.Sprintf("shape %s: %d of %d probes reached the parser, the last one lies inside the declared body; server output %s", shape, next, n, trim(replyKinds(conn.Out()), 300)), cs)
+		}
+		return
 	}
 	if next != n && !(cutShort && next == n-1) {
 		c.Violate("framing", "a message was not consumed in exactly its declared length: the following probe was lost, duplicated or reordered", fmt.Sprintf("shape %s: only %d of %d probes reached the parser; server output %s", shape, next, n, trim(replyKinds(conn.Out()), 300)), cs)
